@@ -328,6 +328,8 @@ def run_property(prop, tier, *, jobs=None, only=None, verbose=False,
                 distinct_obligation_keys=len(by_key),
                 structural_instances=len(normal),
                 paths_explored=paths_total,
+                programs=len(normal),
+                disagreements_checked=len(violations),
                 evaluations=paths_total,
                 distinct_nontrivial=nontrivial_total,
                 rule=pmeta.get("evaluation_rule") or (
